@@ -78,7 +78,9 @@ def jsonable(o: Any, depth: int = 0) -> Any:
     if isinstance(o, (bytes, bytearray)):
         return hx(o)
     if isinstance(o, (str, int, float, bool)) or o is None:
-        if isinstance(o, int) and abs(o) > 1 << 63:
+        if isinstance(o, int) and not isinstance(o, bool) and abs(o) > 1 << 63:
+            if o.bit_length() > 4096:  # never serialise monster integers (a mis-evaluated shift can have billions of bits)
+                return f"<int of {o.bit_length()} bits>"
             return hex(o)
         if isinstance(o, str) and len(o) > 2000:
             return o[:1000] + "...(len=%d)" % len(o)
